@@ -453,6 +453,9 @@ func (it *FlatIterator) Reset() {
 		switch {
 		case it.IsScalar():
 			it.nextIndex = 0
+		case it.isVector && it.veclikeDim != 0:
+			// vector-like shapes such as (1, n): the last element is along the one axis that is not of length 1
+			it.nextIndex = (it.shape[it.veclikeDim] - 1) * it.strides[it.veclikeDim]
 		case it.isVector:
 			it.nextIndex = (it.shape[0] - 1) * it.strides[0]
 		// case it.IsRowVec():
